@@ -218,7 +218,9 @@ func TestVerifC02Sess(t *testing.T) {
 		if q%8 == 7 {
 			sc.BytesSC = rng.between(500, 5000)
 		}
-		sc.Net = netProfile{Name: "lossy-tail", Loss: 0.05 + rng.float()*0.3, DelayMin: rng.between(1, 30), HealAt: 1 << 30}
+		// the fault period is finite (the property's precondition): the tail of the
+		// transfer usually falls into it, the network heals later
+		sc.Net = netProfile{Name: "lossy-tail", Loss: 0.05 + rng.float()*0.3, DelayMin: rng.between(1, 30), HealAt: rng.between(20000, 90000), HealJit: 3}
 		sc.Net.DelayMax = sc.Net.DelayMin + rng.between(0, 20)
 		sc.LimitMs = 2 * 3600 * 1000
 		rec.beginCase(sc)
@@ -230,6 +232,12 @@ func TestVerifC02Sess(t *testing.T) {
 				d := ""
 				for _, x := range res.xs {
 					d += x.progress() + " "
+				}
+				if res.client != nil {
+					d += " client: " + sessProgress(res.client)
+				}
+				if res.server != nil {
+					d += " server: " + sessProgress(res.server)
 				}
 				rec.violation("C02 transfer did not complete within the virtual-time limit", d, sc)
 			}
